@@ -37,6 +37,33 @@ theorem vtext_content_is_escaped (P : Params) (s : Stack) (attrs : List Attr) (v
   have : (getAttr attrs (S "v-text") == []) = false := by simpa using hne
   simp [evalVContent, this, hr]
 
+theorem content_of_some (attrs attrs' : List Attr) (ck : Str) (valR : Res (Option Val))
+    (h : (match valR with
+      | .ok (some v) => (Res.ok (some (attrs ++ [(ck, escape v.sprint)])) : Res (Option (List Attr)))
+      | .ok none => .ok none
+      | e => e.castErr) = .ok (some attrs')) :
+    ∃ v : Val, attrs' = attrs ++ [(ck, escape v.sprint)] := by
+  cases valR with
+  | ok o =>
+    cases o with
+    | some v => simp only [Res.ok.injEq, Option.some.injEq] at h; exact ⟨v, h.symm⟩
+    | none => cases h
+  | err c m => simp [Res.castErr] at h
+  | panic x => simp [Res.castErr] at h
+  | hang x => simp [Res.castErr] at h
+  | fuel => simp [Res.castErr] at h
+
+/-- (3b) … on EVERY branch of the directive — plain path, filter pipeline, function call: whenever v-text produces content at all, that
+    content is the escaped string form of some value; there is no branch on which it is stored raw -/
+theorem vtext_content_is_escaped_every_branch (P : Params) (s : Stack) (attrs attrs' : List Attr)
+    (h : evalVContent P s attrs (S "v-text") sVText true = .ok (some attrs')) :
+    ∃ v : Val, attrs' = attrs ++ [(sVText, escape v.sprint)] := by
+  unfold evalVContent at h
+  simp only [↓reduceIte] at h
+  split at h
+  · cases h
+  · exact content_of_some attrs attrs' sVText _ h
+
 /-- (4) loop output goes through evaluation once: a non-empty loop returns exactly the nodes its iterations produced (there is no second
     attribute pass over them) -/
 theorem loop_output_single_pass (W : World) (f : Nat) (ctx : Ctx) (st st1 : St) (tag : Str) (attrs : List Attr) (kids rest loopNodes : List Node)
